@@ -51,7 +51,7 @@ def match_known(known: list[dict], prop: str, violation: dict) -> dict | None:
         if entry.get("status") != "known" or entry["property"] != prop:
             continue
         sig = entry["signature"]
-        if sig["oracle"] != violation["tag"]:
+        if sig["oracle"] not in ("*", violation["tag"]):
             continue
         want = sig.get("discr", {})
         if all(violation["discr"].get(k) == v for k, v in want.items()):
